@@ -105,6 +105,7 @@ pub fn run(rep: &mut Rep) {
                 }
                 let mut rng = Rng::derive(seed, "c02", case);
                 let mut c = Ctl::new(&mut rng);
+                c.any_alg = true;
                 c.top_mask = Some(*mask);
                 c.nested = match r % 3 {
                     0 => Some(true),
@@ -132,6 +133,7 @@ pub fn run(rep: &mut Rep) {
         }
         let mut rng = Rng::derive(seed, "c02-gna", case);
         let mut c = Ctl::new(&mut rng);
+                c.any_alg = true;
         let (r, _) = crate::resp::gen_get_assertion(&mut c);
         if !rep.begin("GetNextAssertion-equals-GetAssertion") {
             continue;
